@@ -7,5 +7,6 @@ pub mod gen;
 pub mod observe;
 pub mod print;
 pub mod resolve;
+pub mod rules;
 pub mod run;
 pub mod tree;
